@@ -140,6 +140,8 @@ pub fn candidates(
 /// Expression → candidate paths that are always tried with it.
 pub const PINNED_PATHS: &[(&str, &[&str])] = &[
     ("/x{a/**,**/b}", &["/xa", "/xa/b", "/x/b", "/xa/c"]),
+    ("/**/a", &["/xa", "/x/a", "/a", "/x/ya"]),
+    ("/**/a/b", &["/xa/b", "/x/a/b"]),
     ("<**/\\<:0,1>/**/ǆ", &["/<ǆ", "/ǆ", "a/</ǆ", "/x/ǆ"]),
 ];
 
